@@ -5,7 +5,7 @@ from oracles import gwl
 ID = "C11"
 BOUNDS = {
     "quick": "one operation (Labware.add/remove, worklist aspirate/dispense with k<=2 wells, transfer with k<=2 triples and <=3 split steps incl. "
-             "same-labware and same-well transfers, distribute incl. into the source trough) from an arbitrary valid state whose history holds 1 or 3 "
+             "same-labware and same-well transfers, auto_split on and off, distribute incl. into the source trough) from an arbitrary valid state whose history holds 1 or 3 "
              "earlier entries of arbitrary symbolic volumes; volumes >= 0 symbolic, so the classes 'all zero' / 'some zero' are decided by the solver; "
              "label present or absent; both devices; plate 2x2 / trough 3x2; followed by one further Labware.add to test snapshot semantics",
     "thorough": "k<=2 with 4 candidate wells, <=4 split steps, partition modes x3, plates 3x2/8x2",
@@ -26,6 +26,8 @@ def shards(tier):
                     out.append(dict(base, op="transfer", sgeo=sg, dgeo=dg, same=same, k=1, steps=3 if tier == "quick" else 4, partition_by="auto", washes=[1]))
                     if hist == 1 or tier == "thorough":
                         out.append(dict(base, op="transfer", sgeo=sg, dgeo=dg, same=same, k=2, steps=2, partition_by="auto", washes=[1], ncand=2 if tier == "quick" else 4))
+                    if hist == 3 and label == "op":
+                        out.append(dict(base, op="transfer", sgeo=sg, dgeo=dg, same=same, k=2, steps=1, partition_by="auto", washes=[1], ncand=2, auto_split=False))
                 out.append(dict(base, op="distribute", sgeo="t3x2", dgeo="p2x2", k=1, steps=1))
                 out.append(dict(base, op="distribute", sgeo="t3x2", dgeo="t3x2", same=True, k=1, steps=1, dsels=[[3], [3, 4]]))
     return out
